@@ -107,7 +107,7 @@ pub fn checks() -> Vec<Check> {
             sc("list-back-pressure", 4, list_bp),
             sc("list-cut", 2, list_cut),
         ],
-        quick: (20_000, 50),
+        quick: (30_000, 50),
         thorough: (300_000, 600),
         rule: "each evaluation is one seeded run: one collection type, 3..40 steps of a (mostly bursty) mutator, up to 5 subscribers joining at any step (mirrors and raw \
 subscriptions; local, held before use, or 1-2 connections away; slow consumers; event buffers 1..3 or mirror max_size 0..8), borrow / borrow_and_update peeks at any step, \
